@@ -284,4 +284,27 @@ theorem failed_refund_is_final {s s' : St} {k : Bytes} {p : Packet} (h : finaliz
           simp only [finalizedRecord, bne_iff_ne, ne_eq] at this
           exact this (hkq.trans hk.symm)
 
+-- ------------------------------------------------------------------ non-vacuity
+
+/-- account 0 sends 100 to the rollapp, the packet times out above the finalized height (stored pending);
+    meanwhile the escrowed 100 come back to account 1 at a finalized height (the escrow is empty);
+    finalizing the timeout: accepted, nothing is paid, the packet is FINALIZED with the refund error -/
+def lostOps : List Op :=
+  [ .send 0 0 0 100, .addState [114] 10, .timeout 0 1 5, .finalizeState [114],
+    .recv 0 1 3 { dref := .back 0, amount := 100, target := some 1, memo := .none } ]
+
+example : (step (run cexInit lostOps) (.finalize 2 [114] 5 .onTimeout [99, 48] 1)).2 = .ok ∧
+    getBal (run cexInit lostOps).bal 0 0 = 900 ∧
+    getBal (step (run cexInit lostOps) (.finalize 2 [114] 5 .onTimeout [99, 48] 1)).1.bal 0 0 = 900 ∧
+    (step (run cexInit lostOps) (.finalize 2 [114] 5 .onTimeout [99, 48] 1)).1.packets.map (fun p => (p.status, p.perr)) =
+      [(.finalized, some (.refund 0 100 0))] ∧
+    (step (step (run cexInit lostOps) (.finalize 2 [114] 5 .onTimeout [99, 48] 1)).1 (.finalize 2 [114] 5 .onTimeout [99, 48] 1)).2 = .err .notFound := by
+  decide
+
+/-- a delayed timeout only records: balances, acknowledgements and log untouched, packet and index entry there -/
+example : (run cexInit (lostOps.take 3)).bal = (run cexInit (lostOps.take 2)).bal ∧
+    (run cexInit (lostOps.take 3)).log = [] ∧
+    (run cexInit (lostOps.take 3)).packets.map (fun p => (p.status, p.target)) = [(.pending, 0)] ∧
+    (run cexInit (lostOps.take 3)).byAddr.map (·.1) = [0] := by decide
+
 end DymVerif.C04
